@@ -3,6 +3,11 @@
 import io
 
 
+def is_wrapped(v):
+    return hasattr(v, "section") and any(
+        c.__name__ == "Wrapped" for c in type(v).__mro__)
+
+
 def canon_value(v, seen_ids=None, containers=None):
     """Canonical form of a value found in a configuration tree (same
     vocabulary as ref.refmatch.canon).  *containers* collects (id, obj) of
@@ -29,7 +34,7 @@ def canon_value(v, seen_ids=None, containers=None):
         return ["dict", {str(k): canon_value(x, seen_ids, containers)
                          for k, x in v.items()}]
     cls = type(v).__name__
-    if cls in ("Wrapped", "Wrapped2") and hasattr(v, "section"):
+    if is_wrapped(v):
         return ["W", cls, canon_value(v.section, seen_ids, containers)]
     if hasattr(v, "getSectionAttributes"):
         return canon_section(v, seen_ids, containers)
@@ -71,7 +76,7 @@ def extra_public_attributes(sv):
         elif isinstance(v, dict):
             for k, x in v.items():
                 rec(x, path + [k])
-        elif type(v).__name__ in ("Wrapped", "Wrapped2"):
+        elif is_wrapped(v):
             rec(v.section, path + ["W"])
         elif hasattr(v, "getSectionAttributes"):
             listed = set(v.getSectionAttributes())
